@@ -35,6 +35,7 @@ type Sel struct {
 type Ptr struct {
 	Obj  *Obj // nil => nil pointer
 	Path []Sel
+	Span *Term // number of elements addressable from this pointer within the slice/array it was taken from (nil: unknown)
 }
 
 type Slice struct {
